@@ -117,8 +117,8 @@ def check_codec(version: str, f: tuple, sch=None) -> list:
 
 
 def stream_case(job) -> list:
-    """Encoded lines travel over a stream transport that breaks after every possible byte: what the gateway
-    yields is the message that was encoded, or the break is reported as an error - never a different message."""
+    """Encoded lines travel over a stream transport that breaks after every possible byte: what the transport
+    hands to the decoder is the message that was encoded, or the break is reported as an error - never a different message."""
     import asyncio
     from unittest.mock import patch
 
@@ -161,14 +161,16 @@ def stream_case(job) -> list:
             t = TCPTransport("h") if kind == "tcp" else SerialTransport("p")
             with patch("aiomysensors.transport.tcp.asyncio.open_connection" if kind == "tcp" else "aiomysensors.transport.serial.open_serial_connection", factory):
                 drive(t.connect())
-            gw = Gateway(t)
-            gw.protocol_version = version
-            gw.nodes  # noqa: B018
             try:
-                m = drive(gw.listen().__anext__())
+                from marshmallow import ValidationError
+
+                try:
+                    m = sch.load(drive(t.read()))
+                except ValidationError:
+                    continue
                 got = fields_of(m)
                 if got != f:
-                    viols.append((f"C01|stream-break-yields-other-message|semicolon={';' in f[5]}", f"[{version}/{kind}] message {f} encoded as {data!r}; the connection ends after {cut} of {len(data)} bytes: the gateway yields {got}", {"version": version, "mode": "stream", "kind": kind}))
+                    viols.append((f"C01|stream-break-yields-other-message|semicolon={';' in f[5]}", f"[{version}/{kind}] message {f} encoded as {data!r}; the connection ends after {cut} of {len(data)} bytes: the transport hands over a line that decodes to {got}", {"version": version, "mode": "stream", "kind": kind}))
                     break
             except AIOMySensorsError:
                 pass
